@@ -55,6 +55,18 @@ Definition reserved_for (n : onode) (a k : N) : bool :=
 
 Inductive bind_verdict := BindOk | BindBad (why : N) | BindKnown (why : N).
 
+(* the reservations of node n that stand in the way of an ask: all of them for an ordinary ask; for an ask that
+   REQUIRES this node only the reservations of other required-node asks, because tryRequiredNode first cancels every
+   reservation on the node whose ask does not require it (Application.cancelReservations) *)
+Definition blocking_reservations (pre : ostate) (n : onode) (nid reqnode : N) : list (N * N) :=
+  if negb (reqnode =? 0) && (reqnode =? nid)
+  then filter (fun p => match find_app pre (fst p) with
+                        | Some ap => match find_alloc (ap_requests ap) (snd p) with
+                                     | Some x => negb (oa_reqnode x =? 0)
+                                     | None => true end
+                        | None => true end) (on_reservations n)
+  else on_reservations n.
+
 (* the checks the property lists for a binding of ask (a,k) with resource r to node nid decided by the
    scheduler, judged on the pre-state.  why: 2 unregistered node, 3 does not fit, 4 reserved for another ask,
    5 not the required node, 6 predicate denied, 7 unschedulable node;
@@ -64,7 +76,8 @@ Definition bind_check (deny : list (N * N)) (pre : ostate) (a k nid : N) (r : re
   | None => BindBad 2
   | Some n =>
       if negb (fits_free n r) then BindBad 3
-      else if negb (match on_reservations n with [] => true | _ => reserved_for n a k end) then BindBad 4
+      else if negb (match blocking_reservations pre n nid reqnode with [] => true
+                          | rs => existsb (fun p => (fst p =? a) && (snd p =? k)) rs end) then BindBad 4
       else if negb ((reqnode =? 0) || (reqnode =? nid)) then BindBad 5
       else if existsb (fun p => (fst p =? k) && (snd p =? nid)) deny then BindBad 6
       else if negb (on_sched n) then
